@@ -37,13 +37,36 @@ class CountingIn(io.StringIO):
 VERSION_ARG_ALT = {"2": [2, 2.0], "3.0": [3.0, 3], "3.1": [3.1], "4": [4.0, 4]}
 
 
-def run_dialogue(vtag, all_metrics, answers, no_colors=True, limit=None, version_arg=None):
+class MinimalOut(object):
+    """The least a replacement for sys.stdout has to offer: write() and flush() (no isatty, fileno, encoding)."""
+
+    def __init__(self):
+        self.buf = []
+
+    def write(self, s):
+        self.buf.append(s)
+        return len(s)
+
+    def flush(self):
+        pass
+
+    def getvalue(self):
+        return "".join(self.buf)
+
+
+def run_dialogue(vtag, all_metrics, answers, no_colors=None, limit=None, version_arg=None):
     """Returns dict(ret=..|None, exc=..|None, out=str, reads=int).  answers: list of str
-    (without newline).  EOF after the last answer."""
+    (without newline).  EOF after the last answer.  Presentation is varied as a function of the input (so that
+    the same input always runs the same way): colours on for one script in three, and for one in four
+    sys.stdout is an object that has write() and flush() and nothing else."""
+    import zlib
     L = lib()
     text = "".join(a + "\n" for a in answers)
     fin = CountingIn(text, limit or (len(answers) + 5))
-    fout = io.StringIO()
+    h = zlib.crc32(repr((vtag, bool(all_metrics), list(answers))).encode("utf-8", "replace"))
+    if no_colors is None:
+        no_colors = h % 3 != 0
+    fout = MinimalOut() if h % 4 == 1 else io.StringIO()
     old = sys.stdin, sys.stdout
     sys.stdin, sys.stdout = fin, fout
     r = {"ret": None, "exc": None}
